@@ -4,7 +4,7 @@ Require ExtrOcamlBasic.
 From PB Require Bus BusOracle.
 Extraction Language OCaml.
 Extraction "model_bus.ml"
-  Tables.all_baudrates Bus.mkTx Bus.mkCfg Bus.mkView Bus.scale Bus.known_handover_b Bus.rate Bus.start_sc Bus.end_sc Bus.tel_of
+  Tables.all_baudrates Bus.mkTx Bus.mkCfg Bus.mkView Bus.scale Bus.rate Bus.start_sc Bus.end_sc Bus.tel_of
   Bus.passes Bus.visits Bus.w0 Bus.w_step Bus.t_conv_bits Bus.t_rec_bits Bus.t_lost_bits
   Bus.c13_C_bits Bus.c13_O_bits
   BusOracle.c01_no_overlap_b BusOracle.c01_idle_b BusOracle.c01_who_b BusOracle.who_first_bad
